@@ -469,4 +469,12 @@ BINDINGS = [
          methods={"get": "(({self}).d.get? {0}).join"},
          mutations={"self.bpms=": ("bpms", "{value}"), "self.stops=": ("stops", "{value}"), "self.delays=": ("delays", "{value}"),
                     "self.warps=": ("warps", "{value}"), "self.offset=": ("offset", "{value}")}),
+
+    # ---- equality of simfiles (C18): type, OrderedDict.__eq__ as CPython computes it (Model/Equality.lean), chart lists
+    dict(file="simfile/base.py", qual="BaseSimfile.__eq__", module="Equality", lean="simfileEq", ret_mode="plain",
+         params=[("self", "EqObj"), ("other", "EqObj")], ret="Bool", model="simfileEq", theorem="simfileEq_eq", properties=["C18"],
+         imports=["Simfile.Model.Equality"],
+         conds={"type(self) is type(other)": "(self.kind = other.kind)",
+                "OrderedDict.__eq__(self, other)": "(orderedDictEq self.items other.items = true)",
+                "self.charts == other.charts": "(chartsEq (decide (self.kind = Kind.smSimfile)) self.charts other.charts = true)"}),
 ]
